@@ -1,6 +1,7 @@
 /* vh_main.c — supervisor, shared state, breadcrumbs, result JSON, utilities. */
 #define _GNU_SOURCE
 #include <errno.h>
+#include <fenv.h>
 #include <fcntl.h>
 #include <signal.h>
 #include <stdarg.h>
@@ -129,6 +130,27 @@ uint64_t vh_rand(struct vh_rng* r) {
   s[2] ^= t; s[3] = rotl(s[3], 45);
   return result;
 }
+
+/* One lazily mapped region of 2^33 + 2 MiB (MAP_NORESERVE: only touched pages cost memory) for the cases where the
+ * caller's buffer itself is larger than 4 GiB. */
+uint8_t* vh_huge_region(size_t* len) {
+  static uint8_t* base;
+  static const size_t L = ((size_t)1 << 33) + ((size_t)2 << 20);
+  if (!base) {
+    base = mmap(NULL, L, PROT_READ | PROT_WRITE, MAP_PRIVATE | MAP_ANONYMOUS | MAP_NORESERVE, -1, 0);
+    if (base == MAP_FAILED) { base = NULL; return NULL; }
+  }
+  if (len) *len = L;
+  return base;
+}
+
+void vh_ambient_scramble(uint64_t k) {
+  static const int errs[] = {0, ERANGE, EDOM, ENOMEM, EINVAL, EINTR, EILSEQ, EOVERFLOW};
+  static const int rounds[] = {FE_TONEAREST, FE_UPWARD, FE_DOWNWARD, FE_TOWARDZERO};
+  fesetround(rounds[(k >> 3) & 3]);
+  errno = errs[k & 7];
+}
+void vh_ambient_restore(void) { fesetround(FE_TONEAREST); errno = 0; }
 
 uint8_t* vh_exact(const uint8_t* p, size_t n) {
   uint8_t* q = malloc(n);
